@@ -1,8 +1,8 @@
 (* C08/Props.v — the property theorems, nothing else.
-   Model: C08/Model.v.  Proofs: Frame.v, PassA.v, PassB.v, PassC.v. *)
+   Model: C08/Model.v.  Proofs: Frame.v, PassA.v, PassB.v, PassC.v, PassD.v. *)
 From Coq Require Import List NArith ZArith Bool.
 Import ListNotations.
-Require Import Base.Wire Base.PyStr C08.Model C08.Frame C08.PassA C08.PassB C08.PassC.
+Require Import Base.Wire Base.PyStr C08.Model C08.Frame C08.PassA C08.PassB C08.PassC C08.PassD.
 
 (* For every configuration, every state satisfying the invariant (in particular
    the state right after a reset) and EVERY sequence of server messages
@@ -33,25 +33,50 @@ Theorem C08_credentials_invited :
 Proof. intros c s m H. exact (proj2 (creds_only_on_authenticate c s m H)). Qed.
 Print Assumptions C08_credentials_invited.
 
-(* Full statement: every CAP END is sent with no request outstanding.  The
-   pinned code violates it (finding F7).  Proved: it holds for every message
-   sequence without CAP NEW / CAP DEL ... *)
-Theorem C08_cap_end_quiescent_on_domain :
-  forall c ms s, forallb no_newdel ms = true -> InvB c s ->
-  InvB c (fst (run_msgs c s ms)) /\ Forall OutB (snd (run_msgs c s ms)).
+(* Every CAP END is sent with no capability request outstanding: for every
+   configuration, EVERY sequence of server messages (CAP NEW / CAP DEL at any
+   time included) and from every state.  OutB reads the ghost event of a CAP END,
+   which records req - (ack | nak) at that moment.  (Before the fix of finding
+   C08.F7 this held only on the domain without CAP NEW / CAP DEL and was refuted
+   outside it.) *)
+Theorem C08_cap_end_quiescent :
+  forall c ms s, Forall OutB (snd (run_msgs c s ms)).
 Proof. exact PassB.ok_run. Qed.
-Print Assumptions C08_cap_end_quiescent_on_domain.
+Print Assumptions C08_cap_end_quiescent.
 
-Theorem C08_reset_establishes_domain_invariant : forall c s, InvB c (rstate (reset c s)).
-Proof. intros c s. exact (proj1 (PassB.ok_reset c s)). Qed.
-Print Assumptions C08_reset_establishes_domain_invariant.
+(* ... and the clause is not vacuous: on the old witness of C08.F7 (CAP NEW
+   during the SASL exchange, then 903) no CAP END is sent while 'batch' is
+   unanswered; it is sent, once and with nothing outstanding, as soon as the
+   server answers, and registration completes *)
+Theorem C08_cap_end_waits_for_late_request :
+  let c := cfg_plain true in
+  existsb is_end (snd (run_msgs c (start c) f7_prefix)) = false /\
+  req (fst (run_msgs c (start c) f7_prefix)) = [s_sasl; s_batch] /\
+  filter is_end (snd (run_msgs c (start c) (f7_prefix ++ [cap [[65;67;75]; s_batch]]))) = [GEnd 1 [] true] /\
+  fsm (fst (run_msgs c (start c) (f7_prefix ++ [cap [[65;67;75]; s_batch]; INum 376 []]))) = CONNECTED.
+Proof. exact cap_end_waits_for_late_request. Qed.
+Print Assumptions C08_cap_end_waits_for_late_request.
 
-(* ... and fails on a sequence with a CAP NEW during the SASL exchange *)
-Theorem C08_cap_end_quiescent_refuted :
-  exists c ms, existsb (fun o => match o with GEnd _ (_ :: _) => true | _ => false end)
-                       (snd (run_msgs c (start c) ms)) = true.
-Proof. eexists. eexists. exact (proj2 cap_end_outstanding_witness). Qed.
-Print Assumptions C08_cap_end_quiescent_refuted.
+(* Local liveness of the negotiation: the final line of a CAP LS received
+   during the negotiation (fsm = INIT_CAP_NEGOTIATION) is always answered -- a
+   CAP REQ, CAP END, or the connection is deliberately dropped (P2: some emitted
+   event is an `answer`) -- unless an earlier CAP REQ is still unanswered, in
+   which case capUpkeep ends the negotiation when the server answers it.
+   For every configuration, state and capability list.  (Before the fix of
+   finding C08.F24 `CAP LS :echo-message` got no answer and registration
+   stalled; the harness checks the same predicate on the implementation.) *)
+Theorem C08_final_ls_answered :
+  forall c s a0 a1 caps, fsm s = INIT_CAP -> P2 (doCapLs c s [a0; a1; caps]).
+Proof. exact final_ls_answered. Qed.
+Print Assumptions C08_final_ls_answered.
+
+(* the old witness of C08.F24: echo-message offered alone: nothing is requested, CAP END is sent *)
+Theorem C08_echo_only_ends :
+  let c := cfg_plain true in
+  snd (run_msgs (Cfg [s_echo; s_label] false [] [] [] None false false true [104] 3)
+                (start c) [cap [s_LS; s_echo]]) = [GReq [] [s_echo] []; GEnd 1 [] false; Send s_CAP [s_END]].
+Proof. exact echo_only_ends. Qed.
+Print Assumptions C08_echo_only_ends.
 
 (* After a reset the capability and SASL state is the initial one ... *)
 Theorem C08_reset_fresh :
